@@ -379,7 +379,7 @@ def strat_pandas():
 
 
 FAMILIES = [
-    Family("pandas", eval_pandas, strategy=strat_pandas, n_quick=800, n_thorough=9000, shards_quick=6,
+    Family("pandas", eval_pandas, strategy=strat_pandas, n_quick=800, n_thorough=6000, shards_quick=6,
            shards_thorough=16,
            required_labels=["pd:outcome=ok", "pd:outcome=parser-error", "pd:container=index", "pd:container=column",
                             "pd:mix=convertible+null+unconvertible"]),
@@ -683,7 +683,7 @@ def strat_polars():
 
 
 FAMILIES.append(
-    Family("polars", eval_polars, strategy=strat_polars, n_quick=450, n_thorough=5000, shards_quick=6, shards_thorough=16,
+    Family("polars", eval_polars, strategy=strat_polars, n_quick=450, n_thorough=3500, shards_quick=6, shards_thorough=16,
            required_labels=["pl:outcome=ok", "pl:outcome=parser-error", "pl:route=schema",
                             "pl:mix=convertible+null+unconvertible"]))
 
@@ -758,7 +758,8 @@ def _k_index_subclass(family, case, disc):
 @known.finding("C10/decimal-check-all-null-drops-index")
 def _k_decimal_check_index(family, case, disc):
     return (family == "pandas" and case["dtype"]["k"] == "decimal" and disc.kind == "wrong-channel:IndexingError:decimal"
-            and case.get("index") is not None and all(V.is_null(v) for v in _elems(case)))
+            and case.get("index") is not None
+            and all(V.is_null(v) or (isinstance(v, str) and v.lower() == "nan") for v in _elems(case)))
 
 
 @known.finding("C10/polars-nulls-listed-once-any-element-fails")
